@@ -1,21 +1,39 @@
 (* C22  No datagram can crash the NTP server.
-   Property theorems only; proofs are in Proofs/Server.v.
+   Property theorems only; proofs are in Proofs/Server.v, Proofs/ServerBytes.v, Proofs/ServerAnswer.v.
 
-   Scope.  [handle] (Model/Server.v) is the decision structure of Server::handle with every panic
-   site that lies in ntp-proto/src/server.rs, or that is reachable from it through the answer
-   builders, made explicit:
-     2001 `self.elements[index]` (rate-limit cache)      2002 `server_info.read().unwrap()`
-     2003 `ServerResponse::Ignore => unreachable!()`     2004 `unreachable!("NTS shouldn't work with NTPv3")`
-     2005 `clock.now().expect("Failed to read time")`    2006 `self.keys[self.primary as usize]` / `expect("Failed to encrypt cookie")`
-     2007 `assert!(self.duration >= 0)` (root delay, in to_bits_short / to_bits_time32)
-   The byte-level decoder (C23: NtpPacket::deserialize is total) and the serialiser of the answer
-   (C16-C19) are not part of this model: the datagram enters as the decoder's result summary, so the
-   theorems below carry the property for the handler's own control flow and are `_partial` with
-   respect to the property text ("all byte strings"): what is missing is totality of the decoder and
-   of `NtpPacket::serialize`, which the correspondence exercises on every run (malformed, truncated,
-   bit-flipped and length-lying datagrams through the real `Server::handle`; the implementation must
-   not panic where the model does not) but which is proved elsewhere (C23) or not at all (serialiser). *)
+   Three layers, and what is proved about each:
+   (1) the byte-level decoder NtpPacket::deserialize with the server's key set (Model/Packet.v, every
+       panic site explicit, AEAD = oracle argument): total (C23_total);
+   (2) the decision structure of Server::handle (Model/Server.v [handle]) over the decoder's result
+       summary, with every panic site that lies in ntp-proto/src/server.rs, or that is reachable from it
+       through the answer builders via the ENVIRONMENT, made explicit:
+         2001 `self.elements[index]` (rate-limit cache)      2002 `server_info.read().unwrap()`
+         2003 `ServerResponse::Ignore => unreachable!()`     2004 `unreachable!("NTS shouldn't work with NTPv3")`
+         2005 `clock.now().expect("Failed to read time")`    2006 `self.keys[self.primary as usize]` / `expect("Failed to encrypt cookie")`
+         2007 `assert!(self.duration >= 0)` (root delay, in to_bits_short / to_bits_time32)
+   (3) the answer construction (response builders, NtpPacket::serialize into the caller's buffer).
+
+   C22_total_decode_and_decide_partial composes (1) and (2): Model/ServerBytes.v [handle_bytes] runs the
+   decoder on the BYTES, computes the summary from the decoded packet and runs the decision model on it;
+   the theorem is over all byte strings, all decryption oracles, all key sets.  The precondition [req_ok]
+   of the older theorems (an NTPv3 packet has neither a cookie nor a failed authenticator) is no longer a
+   hypothesis: it is proved of the decoder (C22_decoder_v3).
+
+   What remains `_partial` with respect to the property text: layer (3).  In [handle_bytes] the answer
+   construction still enters as the environment bits e_ser_ok / e_buf_ge4 ("the built answer fits"), i.e. it
+   is assumed to RETURN (Ok or WriteZero error); only its environment-triggered panics (2004-2007) are in
+   the composed theorem.  Separately, C22_answer_sites_partial shows that the five panic sites which
+   Model/Response.v (P2b's model of the builders and the serialiser over PARSED requests) makes explicit
+   are unreachable; that model is not panic-site complete (the slice arithmetic of encode_encrypted
+   (split_at_mut, copy_within, [..padding]), Cipher::encrypt and the Cursor are not modelled as
+   panic-capable; it models the bounded cursor as one final length test), it is not composed with the
+   byte decoder (its requests are a different abstraction of the decoded packet), and so totality of
+   the real answer construction is exercised by the correspondence on every run (malformed, truncated,
+   bit-flipped and length-lying datagrams through the real `Server::handle`: the implementation must not
+   panic where the model does not) but not proved. *)
 From V Require Import Model.RateCache Model.Server Proofs.RateCache Proofs.Server.
+From V Require Import Model.Packet Model.ServerBytes Proofs.Packet Proofs.ServerBytes.
+From V Require Model.Response Proofs.ServerAnswer.
 From V Require Import Gen.ConstServer.
 
 (* For every address, configuration, cache state, hash function, buffer outcome and datagram
@@ -50,6 +68,65 @@ Theorem C22_cache_total : forall h c a t cutoff,
   exists c' b, is_allowed h c a t cutoff = Ok (c', b) /\ length c' = length c.
 Proof. exact is_allowed_total. Qed.
 
+(* ---- from the bytes of the datagram (decoder ; summary ; decision) ------------------------------- *)
+
+(* For every datagram (any byte string), every AEAD behaviour [dec] (the only hypothesis: what it returns
+   is a byte string), every key set, address, configuration, cache state, hash function and buffer
+   outcome: if the lock is not poisoned, the clock readable, the key set usable and the published root
+   delay non-negative, decoding the datagram and deciding about it returns normally. *)
+Theorem C22_total_decode_and_decide_partial : forall h cfg c e (dec : oracle) keys id_offset (data : bytes),
+  wf_bytes data -> oracle_wf dec -> env_ok e ->
+  exists r, handle_bytes h cfg c e dec keys id_offset data = Ok r.
+Proof. exact handle_bytes_total. Qed.
+
+(* the same in the form of the property text *)
+Theorem C22_no_panic_decode_and_decide_partial : forall h cfg c e (dec : oracle) keys id_offset (data : bytes),
+  wf_bytes data -> oracle_wf dec -> env_ok e ->
+  forall site, handle_bytes h cfg c e dec keys id_offset data <> Panic site.
+Proof. exact handle_bytes_no_panic. Qed.
+
+(* ... over any history of datagrams through one server *)
+Theorem C22_history_decode_and_decide_partial : forall h cfg (dec : oracle) keys id_offset l c,
+  Forall (fun x => env_ok (fst x) /\ wf_bytes (snd x)) l -> oracle_wf dec ->
+  exists c' rs, handle_all_bytes h cfg c dec keys id_offset l = Ok (c', rs) /\ length rs = length l.
+Proof. intros h cfg dec keys id_offset l. exact (handle_all_bytes_total h cfg dec keys id_offset l). Qed.
+
+(* Exactly which sites can be reached from the bytes: only the four environment sites, each under the
+   negation of its hypothesis.  No site of the decoder, not the cache index, not the `unreachable!()` of the
+   Ignore arm, and (new with respect to C22_panic_sites) not the NTPv3 site. *)
+Theorem C22_panic_sites_bytes : forall h cfg c e (dec : oracle) keys id_offset (data : bytes) s,
+  wf_bytes data -> oracle_wf dec ->
+  handle_bytes h cfg c e dec keys id_offset data = Panic s ->
+  (s = panic_lock_poisoned /\ e_lock_ok e = false) \/
+  (s = panic_clock /\ e_clock_ok e = false) \/
+  (s = panic_keys /\ e_keys_ok e = false) \/
+  (s = panic_root_delay /\ e_root_delay_nonneg e = false).
+Proof. exact handle_bytes_panic_sites. Qed.
+
+(* the decoder fact that discharges [req_ok]: whatever the bytes, keys and cipher, a decoded NTPv3 packet
+   is accepted without a cookie, never returned inside a decrypt error *)
+Theorem C22_decoder_v3 : forall (dec : oracle) (cx : ctx) (data : bytes) o,
+  deserialize dec cx data = Ok o ->
+  packet_version (outcome_packet o) = V3 -> exists p, o = Accept p None.
+Proof. exact deserialize_v3. Qed.
+
+(* ---- the answer construction, as far as Model/Response.v makes its panic sites explicit --------- *)
+
+(* For every parsed request whose NTPv3 form carries neither a cookie nor a failed authenticator, every
+   configuration that reaches the parser (intended action Deny = 1 or ProvideTime = 3), every server state
+   whose reference-id filter is at most 65535 bytes (it is 512), every reception time, clock reading,
+   datagram length and buffer size: building and serialising the answer reaches none of the five sites
+   of that model (assert_eq!(payload_len % 4, 0) in ReferenceIdRequest::serialize,
+   len().try_into().unwrap() in ReferenceIdResponse::serialize, three "NTS shouldn't work with NTPv3"). *)
+Theorem C22_answer_sites_partial : forall tf cfg st q recv now mlen B s,
+  (Model.Response.q_version q = 3 \/ Model.Response.q_version q = 4 \/ Model.Response.q_version q = 5) ->
+  (Model.Response.q_version q = 3 ->
+     Model.Response.q_cookie q = None /\ Model.Response.q_decrypt_failed q = false) ->
+  (Model.Response.c_intended cfg = 1 \/ Model.Response.c_intended cfg = 3) ->
+  Model.Response.len (Model.Response.s_filter st) <= 65535 ->
+  Model.Response.handle tf cfg st q recv now mlen B <> Model.Response.OPanic s.
+Proof. exact Proofs.ServerAnswer.answer_no_panic. Qed.
+
 (* non-vacuity: the hypotheses are needed -- a negative published root delay makes the time answer
    panic (site 2007), an unreadable clock too (2005); with them the same request is served. *)
 Definition nv22_cfg : config :=
@@ -69,6 +146,63 @@ Proof.
   split; [repeat split|]. intros H; discriminate H.
 Qed.
 
+(* non-vacuity from the bytes: a 48-byte NTPv4 client request is served; the NTPv4 datagram of
+   C23_nonvacuous (one NTS authenticator field, no cookie) is a decrypt error under the server's keys and
+   gets the NTS NAK; one garbage byte is ignored; with an unreadable clock the first datagram panics at
+   site 2005; the hypotheses hold of these values *)
+Definition nv22_plain : bytes := 35 :: repeat 0 47.
+Definition nv22_nts : bytes := 35 :: repeat 0 47 ++ [4; 4; 0; 28] ++ repeat 0 24.
+Definition nv22_dec : oracle := fun _ _ _ _ => Some [1; 4; 0; 8; 9; 9; 9; 9].
+Example C22_nonvacuous_bytes :
+  (exists r, handle_bytes (fun a => a) nv22_cfg (new_cache 1) (nv22_env true true) nv22_dec [repeat 1 64] 0 nv22_plain = Ok r
+             /\ o_out r = ORespond ATime /\ o_regs r = [(4, false, Policy, RProvideTime)])
+  /\ (exists r, handle_bytes (fun a => a) nv22_cfg (new_cache 1) (nv22_env true true) nv22_dec [repeat 1 64] 0 nv22_nts = Ok r
+             /\ o_out r = ORespond ANak /\ o_regs r = [(4, true, InvalidCrypto, RNak)])
+  /\ (exists r, handle_bytes (fun a => a) nv22_cfg (new_cache 1) (nv22_env true true) nv22_dec [repeat 1 64] 0 [255] = Ok r
+             /\ o_out r = OIgnore /\ o_regs r = [(7, false, ParseError, RIgnore)])
+  /\ handle_bytes (fun a => a) nv22_cfg (new_cache 1) (nv22_env false true) nv22_dec [repeat 1 64] 0 nv22_plain = Panic panic_clock
+  /\ wf_bytes nv22_plain /\ wf_bytes nv22_nts /\ oracle_wf nv22_dec.
+Proof.
+  split; [eexists; split; [vm_compute; reflexivity|split; reflexivity]|].
+  split; [eexists; split; [vm_compute; reflexivity|split; reflexivity]|].
+  split; [eexists; split; [vm_compute; reflexivity|split; reflexivity]|].
+  split; [vm_compute; reflexivity|].
+  split; [apply wf_bytes_check; vm_compute; reflexivity|].
+  split; [apply wf_bytes_check; vm_compute; reflexivity|].
+  intros k n a c p H; inversion H; subst; apply wf_bytes_check; vm_compute; reflexivity.
+Qed.
+
+(* non-vacuity of C22_answer_sites_partial: an NTPv5 request with a reference-id request field and the
+   draft identification satisfies the hypotheses and is answered (the answer carries a reference-id
+   response, whose encoder has site 2); the hypothesis on NTPv3 is needed: a version-3 request reported
+   with a failed authenticator reaches site 4 *)
+Definition nv22_q (ver : Z) (failed : bool) : Model.Response.request :=
+  {| Model.Response.q_version := ver; Model.Response.q_mode := 3; Model.Response.q_poll := 6;
+     Model.Response.q_xmit := [1; 2; 3; 4; 5; 6; 7; 8]; Model.Response.q_upgrade := false;
+     Model.Response.q_untrusted := if ver =? 5 then [Model.Response.FRefReq 8 0; Model.Response.FDraft Model.Response.draft_bytes] else [];
+     Model.Response.q_auth := []; Model.Response.q_enc := []; Model.Response.q_mac := 0;
+     Model.Response.q_cookie := None; Model.Response.q_decrypt_failed := failed; Model.Response.q_auths := [] |}.
+Definition nv22_st : Model.Response.sstate :=
+  {| Model.Response.s_stratum := 2; Model.Response.s_leap := 0; Model.Response.s_refid := [0; 0; 0; 0];
+     Model.Response.s_precision := 230; Model.Response.s_rdelay_short := [0; 0; 0; 0];
+     Model.Response.s_rdisp_short := [0; 0; 0; 0]; Model.Response.s_rdelay_t32 := [0; 0; 0; 0];
+     Model.Response.s_rdisp_t32 := [0; 0; 0; 0]; Model.Response.s_filter := repeat 7 512 |}.
+Definition nv22_rcfg : Model.Response.config :=
+  {| Model.Response.c_intended := 3; Model.Response.c_require_nts := 0; Model.Response.c_accepted := [3; 4; 5] |}.
+Example C22_nonvacuous_answer :
+  (exists st w, Model.Response.handle true nv22_rcfg nv22_st (nv22_q 5 false) (repeat 0 8) (repeat 0 8) 88 1024
+                = Model.Response.ORespond st w)
+  /\ Model.Response.wf_request (nv22_q 5 false) = true
+  /\ Model.Response.len (Model.Response.s_filter nv22_st) <= 65535
+  /\ Model.Response.handle true nv22_rcfg nv22_st (nv22_q 3 true) (repeat 0 8) (repeat 0 8) 48 1024
+      = Model.Response.OPanic 4.
+Proof.
+  split; [do 2 eexists; vm_compute; reflexivity|].
+  split; [vm_compute; reflexivity|].
+  split; [vm_compute; discriminate|].
+  vm_compute; reflexivity.
+Qed.
+
 (* census of the panic sites the model makes explicit, regenerated from the sources on every run: a new
    `unwrap`/`expect`/`unreachable!`/`assert!`/indexing in the handler changes one of these counts and breaks
    this example (the model must then be revisited).  server.rs (non-test part): one `unreachable!()`, one
@@ -86,3 +220,9 @@ Print Assumptions C22_total_partial.
 Print Assumptions C22_history_total_partial.
 Print Assumptions C22_panic_sites.
 Print Assumptions C22_cache_total.
+Print Assumptions C22_total_decode_and_decide_partial.
+Print Assumptions C22_no_panic_decode_and_decide_partial.
+Print Assumptions C22_history_decode_and_decide_partial.
+Print Assumptions C22_panic_sites_bytes.
+Print Assumptions C22_decoder_v3.
+Print Assumptions C22_answer_sites_partial.
